@@ -436,10 +436,20 @@ def run_units(jobs, workers=None):
     workers = workers or int(os.environ.get("C01_WORKERS", "4"))
     workers = max(1, min(workers, len(jobs)))
     if workers == 1:
-        return [run_unit(j) for j in jobs]
+        return [run_any(j) for j in jobs]
     ctx = multiprocessing.get_context("fork")
-    with ctx.Pool(workers) as pool:
-        return pool.map(run_unit, jobs, chunksize=1)
+    pool = ctx.Pool(workers)
+    try:
+        out = pool.map(run_any, jobs, chunksize=1)
+        pool.close()
+        pool.join()
+        return out
+    finally:
+        pool.terminate()
+
+
+def run_any(job):
+    return run_layout_unit(job) if job.get("kind") == "layout" else run_unit(job)
 
 
 # ---------------------------------------------------------------------------------------------
@@ -499,17 +509,85 @@ class Namer:
         return f"{kw} {name}", ""
 
 
-def layout_source(types, prefix="T"):
-    """C text declaring every type of `types` (struct/union at top level) and a global object of it"""
+def layout_source(types, prefix="T", with_inits=False):
+    """C text declaring every type of `types` (struct/union at top level) and a global object of it;
+    with_inits: also returns the text of initialised objects gi<i> for the types made of integer scalars only"""
     nm = Namer(prefix)
     tops = []
     for i, t in enumerate(types):
         spec, suf = nm.declare(t)
         tops.append((spec, suf))
     lines = list(nm.decls)
+    inits = []
     for i, (spec, suf) in enumerate(tops):
         lines.append(f"{spec} g{i}{suf};")
+        if with_inits and int_only(types[i]):
+            inits.append(f"{spec} gi{i}{suf} = {init_text(types[i], [0])};")
+    if with_inits:
+        return "\n".join(lines) + "\n", tops, "\n".join(inits) + "\n"
     return "\n".join(lines) + "\n", tops
+
+
+INT_PRIM_SIZE = {"char": 1, "uchar": 1, "short": 2, "ushort": 2, "int": 4, "uint": 4, "long": 8, "ulong": 8, "llong": 8, "ullong": 8}
+
+
+def int_only(t):
+    k = t[0]
+    if k == "P":
+        return t[1] in INT_PRIM_SIZE
+    if k == "A":
+        return int_only(t[2])
+    return bool(t[1]) and all(int_only(x) for x in t[1])
+
+
+def init_text(t, counter):
+    """brace initialiser giving every scalar (first member of a union) the next value 1, 2, 3, …"""
+    k = t[0]
+    if k == "P":
+        counter[0] += 1
+        return str(counter[0] % 120 + 1)
+    if k == "A":
+        return "{" + ", ".join(init_text(t[2], counter) for _ in range(t[1])) + "}"
+    if k == "S":
+        return "{" + ", ".join(init_text(x, counter) for x in t[1]) + "}"
+    return "{" + init_text(t[1][0], counter) + "}"
+
+
+def subtypes(t, acc):
+    acc[lty_proto(t)] = t
+    if t[0] == "A":
+        subtypes(t[2], acc)
+    elif t[0] in "SN":
+        for x in t[1]:
+            subtypes(x, acc)
+    return acc
+
+
+def expected_image(t, info):
+    """memory image of the object initialised by init_text, from the SPECIFICATION's sizes and offsets
+    (info: proto -> (size, align, [offsets])): scalars little-endian at their offsets, padding zero"""
+    size = info[lty_proto(t)][0]
+    img = bytearray(size)
+    counter = [0]
+
+    def place(t, off):
+        k = t[0]
+        if k == "P":
+            counter[0] += 1
+            n = INT_PRIM_SIZE[t[1]]
+            img[off:off + n] = (counter[0] % 120 + 1).to_bytes(n, "little")
+        elif k == "A":
+            es = info[lty_proto(t[2])][0]
+            for i in range(t[1]):
+                place(t[2], off + i * es)
+        elif k == "S":
+            offs = info[lty_proto(t)][2]
+            for x, o in zip(t[1], offs):
+                place(x, off + o)
+        else:
+            place(t[1][0], off)
+    place(t, 0)
+    return bytes(img)
 
 
 def run_layout_unit(job):
@@ -518,7 +596,7 @@ def run_layout_unit(job):
     from ppci.lang.c.nodes import declarations as D
     src = job["src"]
     n = job["n"]
-    extra = "".join(f"unsigned long s{i}(void) {{ return sizeof(g{i}); }}\n" for i in range(n))
+    extra = "".join(f"unsigned long s{i}(void) {{ return sizeof(g{i}); }}\n" for i in range(n)) + job.get("inits", "")
     out = {"status": "ok", "msg": "", "rows": []}
     try:
         module, cap = compile_capture(src + extra, job.get("march", "x86_64"))
@@ -547,8 +625,18 @@ def run_layout_unit(job):
             for ins in b:
                 if isinstance(ins, ir.Const):
                     konst = ins.value
+        image = None
+        vi = ivars.get(f"gi{i}")
+        if vi is not None and vi.value is not None:
+            image = b""
+            for part in vi.value:
+                if not isinstance(part, (bytes, bytearray)):
+                    image = None
+                    break
+                image += bytes(part)
         out["rows"].append({"size": size, "align": align, "offsets": offs, "var_amount": v.amount if v else None,
-                            "var_align": v.alignment if v else None, "sizeof_const": konst})
+                            "var_align": v.alignment if v else None, "sizeof_const": konst,
+                            "image": None if image is None else image.hex()})
     return out
 
 
@@ -688,12 +776,14 @@ class ProgGen:
             return f"(((int)({a} & 1023u) - 512) < ((int)({b} & 1023u) - 512))"
         return f"({a} {op} {b})"
 
-    def block(self, vars_, depth, ind, loop_ok=True):
+    def block(self, wr, depth, ind, loop_ok=True, ro=()):
+        """wr: assignable variables; ro: read-only ones (loop counters)"""
+        vars_ = list(wr) + list(ro)
         r = self.rng
         out = []
         for _ in range(r.randint(1, 4)):
             k = r.random()
-            v = r.choice(vars_)
+            v = r.choice(wr)
             if k < 0.30 or depth <= 0:
                 op = r.choice(["=", "+=", "-=", "*=", "^=", "|=", "&=", "="])
                 out.append(f"{ind}{v} {op} {self.expr(vars_, 2)};")
@@ -701,10 +791,10 @@ class ProgGen:
                 out.append(f"{ind}{v}{r.choice(['++', '--'])};")
             elif k < 0.52:
                 out.append(f"{ind}if ({self.expr(vars_, 2)}) {{")
-                out += self.block(vars_, depth - 1, ind + "  ")
+                out += self.block(wr, depth - 1, ind + "  ", loop_ok, ro)
                 if r.random() < 0.6:
                     out.append(f"{ind}}} else {{")
-                    out += self.block(vars_, depth - 1, ind + "  ")
+                    out += self.block(wr, depth - 1, ind + "  ", loop_ok, ro)
                 out.append(f"{ind}}}")
             elif k < 0.64 and loop_ok:
                 n = r.randint(1, 6)
@@ -712,7 +802,7 @@ class ProgGen:
                 kind = r.random()
                 if kind < 0.5:
                     out.append(f"{ind}for ({c} = 0; {c} < {n}; {c}++) {{")
-                    out += self.block(vars_ + [c], depth - 1, ind + "  ")
+                    out += self.block(wr, depth - 1, ind + "  ", loop_ok, tuple(ro) + (c,))
                     if r.random() < 0.3:
                         out.append(f"{ind}  if ({self.expr(vars_ + [c], 1)}) {r.choice(['break', 'continue'])};")
                     out.append(f"{ind}}}")
@@ -720,24 +810,24 @@ class ProgGen:
                     out.append(f"{ind}{c} = {n};")
                     out.append(f"{ind}while ({c} > 0) {{")
                     out.append(f"{ind}  {c}--;")
-                    out += self.block(vars_ + [c], depth - 1, ind + "  ")
+                    out += self.block(wr, depth - 1, ind + "  ", loop_ok, tuple(ro) + (c,))
                     out.append(f"{ind}}}")
                 else:
                     out.append(f"{ind}{c} = 0;")
                     out.append(f"{ind}do {{")
-                    out += self.block(vars_ + [c], depth - 1, ind + "  ")
+                    out += self.block(wr, depth - 1, ind + "  ", loop_ok, tuple(ro) + (c,))
                     out.append(f"{ind}  {c}++;")
                     out.append(f"{ind}}} while ({c} < {n});")
             elif k < 0.74:
                 out.append(f"{ind}switch ({self.expr(vars_, 1)} & 3u) {{")
                 for cs in r.sample([0, 1, 2, 3], r.randint(1, 3)):
                     out.append(f"{ind}case {cs}:")
-                    out += self.block(vars_, 0, ind + "  ", loop_ok=False)
+                    out += self.block(wr, 0, ind + "  ", False, ro)
                     if r.random() < 0.75:
                         out.append(f"{ind}  break;")
                 if r.random() < 0.6:
                     out.append(f"{ind}default:")
-                    out += self.block(vars_, 0, ind + "  ", loop_ok=False)
+                    out += self.block(wr, 0, ind + "  ", False, ro)
                 out.append(f"{ind}}}")
             elif k < 0.82:
                 out.append(f"{ind}arr[{self.expr(vars_, 1)} % 5u] = {self.expr(vars_, 2)};")
@@ -745,7 +835,7 @@ class ProgGen:
             elif k < 0.88:
                 out.append(f"{ind}st.a = {self.expr(vars_, 1)}; st.b = (unsigned char){self.expr(vars_, 1)}; {v} += st.a + st.b;")
             elif k < 0.93:
-                out.append(f"{ind}p = &{r.choice([x for x in vars_ if x[0] in 'xyz'])}; *p = *p + {self.expr(vars_, 1)};")
+                out.append(f"{ind}p = &{r.choice([x for x in wr if x in ('x', 'y')] or ['x'])}; *p = *p + {self.expr(vars_, 1)};")
             elif k < 0.97 and self.nfun > 0:
                 out.append(f"{ind}{v} += h{r.randrange(self.nfun)}({self.expr(vars_, 1)}, {self.expr(vars_, 1)});")
             else:
